@@ -183,8 +183,8 @@ class Harness:
             d = az - bz
             if z3.eq(az, bz) or z3.is_rational_value(z3.simplify(d)) and z3.simplify(d).numerator_as_long() == 0:
                 return True
-            tol = symx.realval(rel) * z3.If(bz >= 0, bz, -bz) + symx.realval(abs_)
-            if rel == 0 and abs_ == 0:
+            tol = symx.realval(rel) * z3.If(bz >= 0, bz, -bz) + symx.toz(abs_)
+            if rel == 0 and not symx.is_sym(abs_) and abs_ == 0:
                 return SymBool(az == bz)
             return SymBool(z3.And(d <= tol, -d <= tol))
         a = float(a)
@@ -193,7 +193,7 @@ class Harness:
             return math.isnan(a) and math.isnan(b)
         if math.isinf(a) or math.isinf(b):
             return a == b
-        tol = rel * abs(b) + abs_
+        tol = rel * abs(b) + float(abs_)
         if self.mode == 'conc':
             slack = 1e-9 * max(abs(a), abs(b)) + 1e-300
             if self.purpose == 'replay':
@@ -318,11 +318,17 @@ def discharge(ob, findings, prop, tier):
     def fn():
         h = Harness('sym')
         holder['h'] = h
+        saved = [(o, a, getattr(o, a)) for o, a, _ in symx.float_coercion_patches()]
+        for o, a, w in symx.float_coercion_patches():
+            setattr(o, a, w)
         try:
             ob.func(h, *ob.args)
         except Exception as e:    # noqa: BLE001
             h.claims.append(Claim('no-unexpected-exception', False, {}, f'{type(e).__name__}: {_short(e, 200)}'))
             h.log.append(traceback.format_exc(limit=6))
+        finally:
+            for o, a, v in saved:
+                setattr(o, a, v)
         # final feasibility of the path (assumptions may have been added after the last branch)
         st = symx.cur()
         if st.check(z3.BoolVal(True)) == 'unsat':
